@@ -54,6 +54,9 @@ public:
         if (d.continuation()) {
             if (d.isContextAlive()) {
                 d.invokeContinuation(&value);
+            } else {
+                // release the continuation (it may hold a copy of its own task)
+                d.setContinuation({});
             }
         } else {
             d.setResult(new U(std::move(value)));
@@ -70,6 +73,9 @@ public:
             if (d.isContextAlive()) {
                 T convertedValue { std::move(value) };
                 d.invokeContinuation(&convertedValue);
+            } else {
+                // release the continuation (it may hold a copy of its own task)
+                d.setContinuation({});
             }
         } else {
             d.setResult(new T(std::move(value)));
@@ -84,6 +90,9 @@ public:
         if (d.continuation()) {
             if (d.isContextAlive()) {
                 d.invokeContinuation(nullptr);
+            } else {
+                // release the continuation (it may hold a copy of its own task)
+                d.setContinuation({});
             }
         }
     }
